@@ -20,12 +20,16 @@ QUICK_SCALE = 3      # the quick tier was enlarged by this factor after MIN_OBS[
 RULE = ("One real client with 1-3 transfers per scripted peer (downloads from scripted uploaders, uploads to scripted "
         "downloaders); the client's connects to a peer are fast / slow (5 s) / hanging / refused and the indirect "
         "path succeeds late / never; extra management cycles are forced by unrelated transfers and server status "
-        "pushes; abort, pause or remove is issued at a seeded virtual instant (+0..3 zero-time yields) covering every "
-        "stage of the negotiation. After the call has returned, for 300 virtual seconds: every frame the client "
+        "pushes; for downloads the peer may offer the file on a connection of its own (PeerTransferRequest) while the "
+        "client's remote-queue attempt still hangs; abort, pause or remove is issued inline at a seeded virtual "
+        "instant (+0..3 zero-time yields), or right behind the management-cycle REQUEST that will start a negotiation "
+        "for the transfer (the call runs between the creation of the negotiation task and that task's first step), "
+        "or at the next cycle end, or right behind the arrival of the peer's offer - covering every stage of the "
+        "negotiation. After the call has returned, for 300 virtual seconds: every frame the client "
         "WRITES on a peer connection is decoded from the tap; a frame naming the file (PeerTransferQueue, "
         "PeerTransferRequest, PeerTransferReply for its ticket, PeerPlaceInQueueRequest, PeerUploadFailed) is a "
-        "violation, so is a connect attempt or GetPeerAddress/ConnectToPeer for a peer with no other unfinished "
-        "transfer, so is any change of the transfer's fields between return and the end of the window. At every "
+        "violation, so is a connect attempt, GetPeerAddress/ConnectToPeer or a write on a file connection for a peer "
+        "with no other transfer, so is any change of the transfer's fields between return and the end of the window. At every "
         "management-cycle end and every tap event the live tasks named queue-remotely-* / initialize-* are walked: a "
         "task whose transfer does not reference it (orphan) or two of one kind for a transfer are violations. "
         "Non-trivial: the call returned while the transfer had a negotiation in flight or frames had been exchanged; "
